@@ -30,6 +30,24 @@
 //!   the real XfrMiddlewareSvc; the emitted messages must be read by the
 //!   reference as a valid transfer of exactly the sender's zone, and the real
 //!   receiver holding the requester's version must end up with that zone.
+//! Part H (histories): two successive updates of one zone.  The first is any
+//!   honest stream of part R, one RR per message, aborted after every k RRs
+//!   (stream ends, or an error response) and its updater dropped; the second
+//!   is a complete update (IXFR in one message, IXFR one RR per message, AXFR)
+//!   from the version the zone is then at to every zone at most one RRset away
+//!   (same content with a new serial included).  The reference model ignores
+//!   the aborted update: zone after the abort == last completed version, final
+//!   zone == target of the second update, readers during the second update see
+//!   only those two.
+//! Part T (reserving outer middleware): the real TsigMiddlewareSvc in front of
+//!   XfrMiddlewareSvc, requests signed by the real ClientSequence (plus an
+//!   unsigned control), zone = SOA + 320 TXT records of identical wire size so
+//!   that the first response is filled to the 64 KiB limit; the SOA RNAME
+//!   length is stepped over more than one record size so that the room left
+//!   in the filled message takes every value.  AXFR, IXFR with a big diff and
+//!   AXFR-style IXFR.  Every response must verify, be <= 65535 octets, the
+//!   stream must be a valid transfer in which every record travels exactly
+//!   once, and the real receiver must end up with the sender's zone.
 //!
 //! Oracles (every case): no panic; reference verdict vs pipeline outcome
 //! (invalid => Err or never finished; valid => finished and receiver ==
@@ -53,7 +71,10 @@ use domain::base::name::{Label, Name};
 use domain::base::rdata::{ComposeRecordData, RecordData};
 use domain::base::{Message, MessageBuilder, Rtype, Serial, Ttl};
 use domain::net::server::message::{NonUdpTransportContext, Request, TransportSpecificContext, UdpTransportContext};
+use domain::net::server::middleware::tsig::TsigMiddlewareSvc;
 use domain::net::server::middleware::xfr::{XfrData, XfrDataProvider, XfrDataProviderError, XfrMiddlewareSvc};
+use domain::rdata::tsig::Time48;
+use domain::tsig::{Algorithm, ClientSequence, Key, KeyName};
 use domain::net::server::service::{Service, ServiceError, ServiceResult};
 use domain::net::xfr::protocol::{IterationError, XfrResponseInterpreter};
 use futures_util::StreamExt;
@@ -503,8 +524,8 @@ struct RealOut {
     reader_unstable: Option<usize>,
 }
 
-fn run_real(old_serial: u32, old: &BTreeSet<MRec>, msgs: &[Bytes]) -> RealOut {
-    let zone = build_zone(old_serial, old);
+fn run_real(mk_zone: &dyn Fn() -> Zone, msgs: &[Bytes]) -> RealOut {
+    let zone = mk_zone();
     let pinned = zone.read();
     let mut rec = RealRec::default();
     let outcome = guard(|| RT.with(|rt| rt.block_on(run_pipeline(&zone, msgs, &mut rec))));
@@ -891,9 +912,16 @@ struct Case<'a> {
     honest_versions: Vec<Obs>,
     fault: Option<String>,
     msgs: Vec<Bytes>,
+    /// a receiver zone outside the 64-zone universe (part T): its content and how to build it
+    custom_old: Option<(Obs, &'a (dyn Fn() -> Zone + Sync))>,
+    /// how to re-run the case when it is not described by (old zone, octets)
+    replay_as: Option<Value>,
 }
 
 fn case_json(c: &Case) -> Value {
+    if let Some(v) = &c.replay_as {
+        return v.clone();
+    }
     json!({
         // (a stream emitted by the real sender is replayed from its octets like any other stream)
         "part": if c.part == "S" { "F" } else { c.part },
@@ -915,9 +943,15 @@ fn outcome_name(o: &Result<Outcome, String>) -> String {
 }
 
 fn judge(sh: &Shared, c: &Case, verbose: bool) {
-    let old_obs = model_obs(c.old_serial, c.old);
+    let old_obs = match &c.custom_old {
+        Some((o, _)) => o.clone(),
+        None => model_obs(c.old_serial, c.old),
+    };
     let refo = reference(&c.msgs, &old_obs);
-    let real = run_real(c.old_serial, c.old, &c.msgs);
+    let real = match &c.custom_old {
+        Some((_, mk)) => run_real(&|| mk(), &c.msgs),
+        None => run_real(&|| build_zone(c.old_serial, c.old), &c.msgs),
+    };
     let det = c.part != "S";
     sh.stats.eval();
     LOCAL.with(|l| {
@@ -1214,6 +1248,7 @@ fn judge(sh: &Shared, c: &Case, verbose: bool) {
 // Enumeration: honest streams (part R) and faults (part F)
 // ====================================================================
 
+#[derive(Clone, Copy)]
 struct Bounds {
     max_dist: usize,
     all_splits_upto: usize,
@@ -1224,6 +1259,10 @@ struct Bounds {
     fault_cuts: u32,
     diff_len: usize,
     sender_dist: usize,
+    hist_dist: usize,
+    hist_aborts: u8,
+    hist_all_mids: bool,
+    tsig_extra_max: usize,
 }
 
 fn masks_for(n: usize, all_upto: usize, max_cuts: u32) -> Vec<u32> {
@@ -1243,6 +1282,8 @@ struct Stream {
     seq: Vec<MRec>,
     new_obs: Obs,
     versions: Vec<Obs>,
+    /// the zones of `versions` (serial = index + 1)
+    kinds: Vec<Kinds>,
 }
 
 fn streams_for(old_k: Kinds, new_k: Kinds, b: &Bounds) -> Vec<Stream> {
@@ -1252,19 +1293,19 @@ fn streams_for(old_k: Kinds, new_k: Kinds, b: &Bounds) -> Vec<Stream> {
     let old_v = model_obs(1, &old);
     // AXFR and AXFR-style IXFR: serial 2
     let new2 = model_obs(2, &new);
-    out.push(Stream { label: "axfr".into(), qtype: 252, seq: axfr_seq(2, &new), new_obs: new2.clone(), versions: vec![old_v.clone(), new2.clone()] });
+    out.push(Stream { label: "axfr".into(), qtype: 252, seq: axfr_seq(2, &new), new_obs: new2.clone(), versions: vec![old_v.clone(), new2.clone()], kinds: vec![old_k, new_k] });
     if !new.is_empty() {
         // (an AXFR-style IXFR answer for a zone holding nothing but its SOA is
         // the two-RR sequence SOA SOA, which RFC 1995 does not let a client
         // tell from a difference list; zones always hold apex NS in practice)
-        out.push(Stream { label: "ixfr-axfr-style".into(), qtype: 251, seq: axfr_seq(2, &new), new_obs: new2.clone(), versions: vec![old_v.clone(), new2.clone()] });
+        out.push(Stream { label: "ixfr-axfr-style".into(), qtype: 251, seq: axfr_seq(2, &new), new_obs: new2.clone(), versions: vec![old_v.clone(), new2.clone()], kinds: vec![old_k, new_k] });
     }
     let vs = vec![(1, old.clone()), (2, new.clone())];
     let s1 = ixfr_seq(&vs, false);
     let s1g = ixfr_seq(&vs, true);
-    out.push(Stream { label: "ixfr-1step".into(), qtype: 251, seq: s1.clone(), new_obs: new2.clone(), versions: vec![old_v.clone(), new2.clone()] });
+    out.push(Stream { label: "ixfr-1step".into(), qtype: 251, seq: s1.clone(), new_obs: new2.clone(), versions: vec![old_v.clone(), new2.clone()], kinds: vec![old_k, new_k] });
     if s1g != s1 {
-        out.push(Stream { label: "ixfr-1step-rrset-granular".into(), qtype: 251, seq: s1g, new_obs: new2.clone(), versions: vec![old_v.clone(), new2.clone()] });
+        out.push(Stream { label: "ixfr-1step-rrset-granular".into(), qtype: 251, seq: s1g, new_obs: new2.clone(), versions: vec![old_v.clone(), new2.clone()], kinds: vec![old_k, new_k] });
     }
     for mi in 0..64 {
         let mk = kinds_of(mi);
@@ -1278,6 +1319,7 @@ fn streams_for(old_k: Kinds, new_k: Kinds, b: &Bounds) -> Vec<Stream> {
                 seq: ixfr_seq(&vs, false),
                 new_obs: new3.clone(),
                 versions: vec![old_v.clone(), model_obs(2, &mid), new3],
+                kinds: vec![old_k, mk, new_k],
             });
         }
     }
@@ -1460,6 +1502,8 @@ fn run_pair(sh: &Shared, old_k: Kinds, new_k: Kinds, b: &Bounds) {
                     honest_versions: st.versions.clone(),
                     fault: None,
                     msgs,
+                    custom_old: None,
+                    replay_as: None,
                 };
                 judge(sh, &c, false);
             }
@@ -1497,6 +1541,8 @@ fn run_pair(sh: &Shared, old_k: Kinds, new_k: Kinds, b: &Bounds) {
                     honest_versions: vec![],
                     fault: Some(fault_name(&f)),
                     msgs,
+                    custom_old: None,
+                    replay_as: None,
                 };
                 judge(sh, &c, false);
             }
@@ -1785,11 +1831,11 @@ impl<M> XfrDataProvider<M> for Provider {
 #[derive(Clone)]
 struct NoSvc;
 
-impl Service<Vec<u8>, ()> for NoSvc {
+impl<M: Clone + Default + Send + Sync + 'static> Service<Vec<u8>, M> for NoSvc {
     type Target = Vec<u8>;
     type Stream = futures_util::stream::Once<std::future::Ready<ServiceResult<Vec<u8>>>>;
     type Future = std::future::Ready<Self::Stream>;
-    fn call(&self, _r: Request<Vec<u8>, ()>) -> Self::Future {
+    fn call(&self, _r: Request<Vec<u8>, M>) -> Self::Future {
         std::future::ready(futures_util::stream::once(std::future::ready(Err(ServiceError::Refused))))
     }
 }
@@ -1976,6 +2022,8 @@ fn run_sender_case(sh: &Shared, ks: &[Kinds], rq: &SReq, verbose: bool) {
         honest_versions: all_obs.clone(),
         fault: None,
         msgs: out.msgs.clone(),
+        custom_old: None,
+        replay_as: None,
     };
     judge(sh, &c, verbose);
 }
@@ -2053,10 +2101,573 @@ fn replay_sender(sh: &Shared, case: &Value) {
 
 
 // ====================================================================
+// Part H: histories of two updates of one zone, the first one aborted
+// ====================================================================
+//
+// U1 is any honest stream of part R (one RR per message) cut after every k
+// RRs, either by the end of the stream or by an error response; the updater
+// is dropped.  U2 is a different, complete update from the version the zone
+// is at after the abort (IXFR in one message, IXFR one RR per message, AXFR)
+// to every zone at most one RRset away (the same content with a new serial
+// included).  The reference model ignores the aborted update.
+
+struct HistCase<'a> {
+    old_k: Kinds,
+    st: &'a Stream,
+    cut: usize,
+    abort: u8,
+    new2_k: Kinds,
+    form: u8,
+}
+
+fn hist_json(h: &HistCase) -> Value {
+    json!({"part": "H", "old": h.old_k, "u1": h.st.label, "u1_kinds": h.st.kinds, "cut": h.cut, "abort": h.abort, "new2": h.new2_k, "form": h.form})
+}
+
+fn run_history_case(sh: &Shared, h: &HistCase, verbose: bool) {
+    let old = zone_recs(h.old_k);
+    let old_obs = model_obs(1, &old);
+    // ---- U1, aborted
+    let specs = split_specs(&h.st.seq, (1u32 << (h.st.seq.len() - 1)) - 1, h.st.qtype, 0);
+    let mut specs1: Vec<MsgSpec> = specs[..h.cut].to_vec();
+    if h.abort == 1 {
+        let mut e = MsgSpec::plain(h.st.qtype, true, &[]);
+        e.rcode = 2;
+        specs1.push(e);
+    }
+    let msgs1: Vec<Bytes> = specs1.iter().map(build_msg).collect();
+    let ref1 = reference(&msgs1, &old_obs);
+    // the version the zone is at after the abort, by the reference: the last completed one
+    let base_obs = ref1.completed.last().cloned().unwrap_or_else(|| old_obs.clone());
+    let Some(base_idx) = h.st.versions.iter().position(|v| *v == base_obs) else {
+        report(sh, "C10|MACHINERY|history-base-version-unknown", &|| "harness self-check".into(), &|| hist_json(h));
+        return;
+    };
+    if ref1.verdict == V::Valid || ref1.verdict == V::Either {
+        report(sh, "C10|MACHINERY|aborted-stream-read-as-complete", &|| "harness self-check".into(), &|| hist_json(h));
+        return;
+    }
+    let base_k = h.st.kinds[base_idx];
+    if dist(base_k, h.new2_k) > 1 {
+        return;
+    }
+    let base_serial = base_idx as u32 + 1;
+    let base = zone_recs(base_k);
+    // ---- U2, complete
+    let new2 = zone_recs(h.new2_k);
+    let serial2 = base_serial + 10;
+    let want = model_obs(serial2, &new2);
+    let (seq2, qtype2, mask2) = match h.form {
+        0 => (ixfr_seq(&[(base_serial, base.clone()), (serial2, new2.clone())], false), 251u16, 0u32),
+        1 => {
+            let s = ixfr_seq(&[(base_serial, base.clone()), (serial2, new2.clone())], false);
+            let m = (1u32 << (s.len() - 1)) - 1;
+            (s, 251, m)
+        }
+        _ => (axfr_seq(serial2, &new2), 252, 0),
+    };
+    let msgs2: Vec<Bytes> = split_specs(&seq2, mask2, qtype2, 0).iter().map(build_msg).collect();
+    // ---- the real zone
+    let zone = build_zone(1, &old);
+    let pinned = zone.read();
+    let mut rec1 = RealRec::default();
+    let out1 = guard(|| RT.with(|rt| rt.block_on(run_pipeline(&zone, &msgs1, &mut rec1))));
+    let after_abort = observe(&zone);
+    let reader_mid = zone.read();
+    let mut rec2 = RealRec::default();
+    let out2 = guard(|| RT.with(|rt| rt.block_on(run_pipeline(&zone, &msgs2, &mut rec2))));
+    let final_obs = observe(&zone);
+    sh.stats.eval();
+    LOCAL.with(|l| {
+        let mut l = l.borrow_mut();
+        l.runs += 1;
+        l.transitions += (rec1.consumed + rec2.consumed) as u64 + 2;
+        l.states.insert(obs_hash(&after_abort));
+        l.states.insert(obs_hash(&final_obs));
+    });
+    let mut key = vec![0x48, h.cut as u8, h.abort, h.form];
+    key.extend_from_slice(&h.old_k);
+    key.extend_from_slice(&h.new2_k);
+    key.extend_from_slice(h.st.label.as_bytes());
+    for k in &h.st.kinds {
+        key.extend_from_slice(k);
+    }
+    sh.stats.distinct(fnv(&key));
+    let u1 = h.st.label.split('/').next().unwrap_or("");
+    let reopened = rec1.updates.contains(&"BeginBatchDelete");
+    lcount(&format!(
+        "H:u1={}:abort={}:after-reopen={}:u1={}:u2-form={}:u2={}",
+        u1,
+        if h.abort == 0 { "stream-ends" } else { "servfail" },
+        reopened,
+        outcome_name(&out1),
+        ["ixfr-1msg", "ixfr-1rr-per-msg", "axfr"][h.form as usize],
+        outcome_name(&out2)
+    ));
+    if verbose {
+        println!("history case: {}", hist_json(h));
+        println!("  U1 {} messages, reference {:?}/{}; real {:?} updates {:?}", msgs1.len(), ref1.verdict, ref1.reason, out1, rec1.updates);
+        println!("  after abort: {}", obs_json(&after_abort));
+        println!("  base (model): {}", obs_json(&base_obs));
+        println!("  U2 real {:?} updates {:?}", out2, rec2.updates);
+        println!("  final: {}", obs_json(&final_obs));
+        println!("  want : {}", obs_json(&want));
+    }
+    let cj = || hist_json(h);
+    let phase = if reopened { "aborted-after-reopen" } else { "aborted-before-first-commit" };
+    for (o, which) in [(&out1, "aborted"), (&out2, "following")] {
+        if let Err(p) = o {
+            report(sh, &format!("C10|panic|history|{}", panic_class(p)), &|| format!("the {which} update panicked: {p}"), &cj);
+            return;
+        }
+    }
+    if out1 == Ok(Outcome::Finished) {
+        report(sh, &format!("C10|history|{u1}|aborted-update-reported-finished"), &|| "an update whose stream was cut is reported as finished".into(), &cj);
+    }
+    if after_abort != base_obs {
+        report(
+            sh,
+            &format!("C10|history|{u1}|{phase}|partial-update-visible-after-abort"),
+            &|| format!("after the aborted update a new reader sees {} instead of {}", obs_json(&after_abort), obs_json(&base_obs)),
+            &cj,
+        );
+    }
+    match &out2 {
+        Ok(Outcome::Finished) => {
+            if final_obs != want {
+                report(
+                    sh,
+                    &format!("C10|history|{u1}|{phase}|aborted-update-leaks-into-the-next-committed-version"),
+                    &|| {
+                        format!(
+                            "after an aborted {u1} update ({phase}) a complete update to {} leaves the zone at {}: edits of the aborted update were published by the later commit",
+                            obs_json(&want),
+                            obs_json(&final_obs)
+                        )
+                    },
+                    &cj,
+                );
+            }
+        }
+        Ok(o) => {
+            report(
+                sh,
+                &format!("C10|history|{u1}|{phase}|update-after-aborted-update-rejected|{}", outcome_name(&Ok(o.clone()))),
+                &|| format!("a valid complete update following an aborted one ends with {o:?}"),
+                &cj,
+            );
+        }
+        Err(_) => {}
+    }
+    // readers: every reader opened during U2 sees the base version or the new one
+    for (i, sn) in rec2.snaps.iter().enumerate() {
+        if *sn != base_obs && *sn != want {
+            report(
+                sh,
+                &format!("C10|history|{u1}|{phase}|reader-during-next-update-sees-leftovers"),
+                &|| format!("a reader opened after message {i} of the following update sees {}", obs_json(sn)),
+                &cj,
+            );
+            break;
+        }
+    }
+    if observe_reader(reader_mid.as_ref()) != after_abort || observe_reader(pinned.as_ref()) != old_obs {
+        report(sh, &format!("C10|history|{u1}|{phase}|open-reader-changed"), &|| "a reader opened before or between the two updates sees different content afterwards".into(), &cj);
+    }
+    sample(sh, &format!("H:{u1}:{}:{}", h.abort, h.form), &cj);
+}
+
+fn run_history_part(sh: &Shared, b: &Bounds) {
+    let mut pairs = vec![];
+    for oi in 0..64 {
+        for ni in 0..64 {
+            let d = dist(kinds_of(oi), kinds_of(ni));
+            if d >= 1 && d <= b.hist_dist {
+                pairs.push((kinds_of(oi), kinds_of(ni)));
+            }
+        }
+    }
+    pairs.par_iter().for_each(|(old_k, new1_k)| {
+        for st in streams_for(*old_k, *new1_k, b) {
+            // (a first step without change adds nothing over the 1-step stream)
+            if st.kinds.len() == 3 && (st.kinds[1] == st.kinds[0] || st.kinds[1] == st.kinds[2]) && !b.hist_all_mids {
+                continue;
+            }
+            let n = st.seq.len();
+            for cut in 1..n {
+                for abort in 0..b.hist_aborts {
+                    // the version after the abort decides which U2 are enumerated: do it per candidate base
+                    for new2_i in 0..64 {
+                        let new2_k = kinds_of(new2_i);
+                        // cheap pre-filter: new2 within one RRset of some version of U1
+                        if !st.kinds.iter().any(|k| dist(*k, new2_k) <= 1) {
+                            continue;
+                        }
+                        for form in 0..3u8 {
+                            if dry() {
+                                lcount("dry:H");
+                                continue;
+                            }
+                            let h = HistCase { old_k: *old_k, st: &st, cut, abort, new2_k, form };
+                            run_history_case(sh, &h, false);
+                        }
+                    }
+                }
+            }
+        }
+    });
+}
+
+fn replay_history(sh: &Shared, case: &Value, b: &Bounds) {
+    let kinds = |v: &Value| -> Kinds {
+        let a: Vec<u8> = v.as_array().unwrap().iter().map(|x| x.as_u64().unwrap() as u8).collect();
+        [a[0], a[1], a[2]]
+    };
+    let old_k = kinds(&case["old"]);
+    let ks: Vec<Kinds> = case["u1_kinds"].as_array().unwrap().iter().map(|k| kinds(k)).collect();
+    let new1_k = *ks.last().unwrap();
+    let label = case["u1"].as_str().unwrap();
+    // all mids, so that any stored stream is found again
+    let wide = Bounds { mid_first: 3, mid_second: 3, ..*b };
+    let Some(st) = streams_for(old_k, new1_k, &wide).into_iter().find(|s| s.label == label) else {
+        println!("replay: stream {label} not found");
+        return;
+    };
+    let h = HistCase {
+        old_k,
+        st: &st,
+        cut: case["cut"].as_u64().unwrap() as usize,
+        abort: case["abort"].as_u64().unwrap() as u8,
+        new2_k: kinds(&case["new2"]),
+        form: case["form"].as_u64().unwrap() as u8,
+    };
+    run_history_case(sh, &h, true);
+}
+
+// ====================================================================
+// Part T: sender behind a reserving outer middleware (real TSIG), with a
+// zone big enough to fill a 64 KiB response message
+// ====================================================================
+//
+// Zone: SOA + FILLERS TXT records of identical wire size at f000.z ...; the
+// first response message is filled to the byte limit.  The length of the
+// SOA RNAME is stepped over more than one filler record size, so that the
+// room left in the first message takes every value 0..record size.  Stack:
+// TsigMiddlewareSvc -> XfrMiddlewareSvc, request signed by the real
+// ClientSequence (or unsigned, as control).
+
+const FILLERS: usize = 320;
+const FILL_TXT: usize = 200;
+
+/// `extra` octets of additional labels in front of the RNAME h.z. (0 or >= 2)
+fn ext_labels(extra: usize) -> Vec<usize> {
+    let mut v = vec![];
+    let mut e = extra;
+    while e > 0 {
+        let mut l = 63.min(e - 1);
+        if e - (l + 1) == 1 {
+            l -= 1;
+        }
+        v.push(l);
+        e -= l + 1;
+    }
+    v
+}
+
+fn ext_soa_data(serial: u32, extra: usize) -> SData {
+    let mut rname = String::new();
+    for l in ext_labels(extra) {
+        rname.push_str(&"r".repeat(l));
+        rname.push('.');
+    }
+    rname.push_str("h.z.");
+    ZoneRecordData::Soa(Soa::new(
+        Name::from_str("ns.z.").unwrap(),
+        Name::from_str(&rname).unwrap(),
+        Serial(serial),
+        Ttl::from_secs(7200),
+        Ttl::from_secs(900),
+        Ttl::from_secs(86400),
+        Ttl::from_secs(300),
+    ))
+}
+
+/// independent encoding of the same SOA
+fn ext_soa_crec(serial: u32, extra: usize) -> CRec {
+    let mut v = vec![2, b'n', b's', 1, b'z', 0];
+    for l in ext_labels(extra) {
+        v.push(l as u8);
+        v.extend(std::iter::repeat(b'r').take(l));
+    }
+    v.extend_from_slice(&[1, b'h', 1, b'z', 0]);
+    for x in [serial, 7200, 900, 86400, 300] {
+        v.extend_from_slice(&x.to_be_bytes());
+    }
+    CRec { owner: "z".into(), rtype: 6, ttl: TTL, rdata: v }
+}
+
+fn filler_crec(i: usize) -> CRec {
+    let mut rdata = vec![FILL_TXT as u8];
+    rdata.extend(std::iter::repeat(b'x').take(FILL_TXT));
+    CRec { owner: format!("f{i:03}.z"), rtype: 16, ttl: TTL, rdata }
+}
+
+fn filler_rrset() -> SharedRrset {
+    let mut s = Rrset::new(Rtype::TXT, Ttl::from_secs(TTL));
+    s.push_data(ZoneRecordData::Txt(Txt::build_from_slice(&[b'x'; FILL_TXT]).unwrap()));
+    SharedRrset::new(s)
+}
+
+fn ext_soa_rrset(serial: u32, extra: usize) -> SharedRrset {
+    let mut s = Rrset::new(Rtype::SOA, Ttl::from_secs(TTL));
+    s.push_data(ext_soa_data(serial, extra));
+    SharedRrset::new(s)
+}
+
+fn big_zone(serial: u32, extra: usize, fillers: usize) -> Zone {
+    let mut b = ZoneBuilder::new(name(0), Class::IN);
+    b.insert_rrset(&name(0), ext_soa_rrset(serial, extra)).unwrap();
+    for i in 0..fillers {
+        b.insert_rrset(&Name::<Bytes>::from_str(&format!("f{i:03}.z.")).unwrap(), filler_rrset()).unwrap();
+    }
+    b.build()
+}
+
+fn big_obs(serial: u32, extra: usize, fillers: usize) -> Obs {
+    let mut v: Obs = (0..fillers).map(filler_crec).collect();
+    v.push(ext_soa_crec(serial, extra));
+    v.sort();
+    v
+}
+
+fn tsig_key() -> Arc<Key> {
+    Arc::new(Key::new(Algorithm::Sha256, &[0x5au8; 32], KeyName::from_str("xfr-key").unwrap(), None, None).unwrap())
+}
+
+#[derive(Clone, Copy, Debug, PartialEq)]
+enum TReq {
+    AxfrSigned,
+    AxfrUnsigned,
+    IxfrDiffSigned,
+    IxfrFallbackSigned,
+}
+
+struct TOut {
+    msgs: Vec<Bytes>,
+    errors: Vec<String>,
+    tsig_failures: Vec<String>,
+    too_long: bool,
+}
+
+async fn run_tsig_sender(extra: usize, rq: TReq) -> Result<TOut, String> {
+    // sender: version 1 = SOA only, version 2 = SOA + fillers (written with diffing on)
+    let zone = big_zone(1, extra, 0);
+    let diff = {
+        let mut w = zone.write().await;
+        let root = w.open(true).await.map_err(|e| format!("open:{e}"))?;
+        for i in 0..FILLERS {
+            let l = format!("f{i:03}");
+            let node = root.update_child(Label::from_slice(l.as_bytes()).unwrap()).await.map_err(|e| format!("update_child:{e}"))?;
+            node.update_rrset(filler_rrset()).await.map_err(|e| format!("update_rrset:{e}"))?;
+        }
+        root.update_rrset(ext_soa_rrset(2, extra)).await.map_err(|e| format!("update_rrset(soa):{e}"))?;
+        drop(root);
+        w.commit(false).await.map_err(|e| format!("commit:{e}"))?
+    };
+    let Some(diff) = diff else { return Err("no-diff-from-commit".into()) };
+    let key = tsig_key();
+    let xfr = XfrMiddlewareSvc::<Vec<u8>, NoSvc, Option<Arc<Key>>, Provider>::new(NoSvc, Provider { zone, diffs: vec![Arc::new(diff)], compat: false }, 1);
+    let svc = TsigMiddlewareSvc::<Vec<u8>, _, Arc<Key>, ()>::new(xfr, key.clone());
+    let mut q = MessageBuilder::new_vec().question();
+    q.header_mut().set_id(0x4343);
+    let qtype = if matches!(rq, TReq::AxfrSigned | TReq::AxfrUnsigned) { Rtype::AXFR } else { Rtype::IXFR };
+    q.push((name(0), qtype)).unwrap();
+    let mut add = match rq {
+        TReq::IxfrDiffSigned | TReq::IxfrFallbackSigned => {
+            let mut a = q.authority();
+            let serial = if rq == TReq::IxfrDiffSigned { 1 } else { 0 };
+            a.push((name(0), Class::IN, Ttl::from_secs(TTL), ext_soa_data(serial, extra))).unwrap();
+            a.additional()
+        }
+        _ => q.additional(),
+    };
+    let mut seq = if rq != TReq::AxfrUnsigned {
+        Some(ClientSequence::request(key.clone(), &mut add, Time48::now()).map_err(|e| format!("sign-request:{e}"))?)
+    } else {
+        None
+    };
+    let request = Request::new("192.0.2.1:5300".parse().unwrap(), tokio::time::Instant::now(), add.into_message(), NonUdpTransportContext::new(None).into(), ());
+    let mut out = TOut { msgs: vec![], errors: vec![], tsig_failures: vec![], too_long: false };
+    let fut = async {
+        let mut stream = svc.call(request).await;
+        while let Some(item) = stream.next().await {
+            match item {
+                Ok(cr) => {
+                    let (resp, _fb) = cr.into_inner();
+                    if let Some(r) = resp {
+                        let t = r.finish();
+                        let octets = t.as_dgram_slice().to_vec();
+                        if octets.len() > u16::MAX as usize {
+                            out.too_long = true;
+                        }
+                        if let Some(seq) = seq.as_mut() {
+                            // (verification strips the TSIG record from its copy)
+                            match Message::from_octets(octets.clone()) {
+                                Ok(mut m) => {
+                                    if let Err(e) = seq.answer(&mut m, Time48::now()) {
+                                        out.tsig_failures.push(format!("response {}: {e}", out.msgs.len()));
+                                    }
+                                }
+                                Err(_) => out.tsig_failures.push(format!("response {}: short", out.msgs.len())),
+                            }
+                        }
+                        out.msgs.push(Bytes::from(octets));
+                    }
+                }
+                Err(e) => out.errors.push(format!("{e}")),
+            }
+        }
+    };
+    if tokio::time::timeout(std::time::Duration::from_secs(30), fut).await.is_err() {
+        return Err("response-stream-never-ends".into());
+    }
+    Ok(out)
+}
+
+fn run_tsig_case(sh: &Shared, extra: usize, rq: TReq, verbose: bool) {
+    let r = guard(|| RT.with(|rt| rt.block_on(run_tsig_sender(extra, rq))));
+    sh.stats.eval();
+    LOCAL.with(|l| {
+        let mut l = l.borrow_mut();
+        l.runs += 1;
+        l.transitions += 2;
+    });
+    sh.stats.distinct(fnv(format!("T:{extra}:{rq:?}").as_bytes()));
+    let rname = format!("{rq:?}");
+    let cj = || json!({"part": "T", "extra": extra, "request": rname});
+    let out = match r {
+        Err(p) => {
+            report(sh, &format!("C10|panic|sender-tsig|{}", panic_class(&p)), &|| format!("TSIG + XFR middleware stack panicked: {p}"), &cj);
+            return;
+        }
+        Ok(Err(e)) => {
+            report(sh, &format!("C10|sender-tsig|{rname}|{}", err_class(e.clone())), &|| format!("sender run failed: {e}"), &cj);
+            return;
+        }
+        Ok(Ok(o)) => o,
+    };
+    // the requester: SOA-only version 1 (IXFR with a known serial) or the same for a full transfer
+    let client_obs = big_obs(1, extra, 0);
+    let want = big_obs(2, extra, FILLERS);
+    let refo = reference(&out.msgs, &client_obs);
+    // what travelled: every non-SOA answer record, as a multiset
+    let mut travelled: Vec<CRec> = vec![];
+    let mut sizes = vec![];
+    let mut flags = vec![];
+    for m in &out.msgs {
+        sizes.push(m.len());
+        if let Ok(raw) = wire::read_message(m) {
+            flags.push(format!("{:#06x}/an={}", raw.flags, raw.counts[1]));
+            for rr in &raw.sections[0] {
+                if let Ok(c) = crec_from_raw(m, rr) {
+                    if c.rtype != 6 {
+                        travelled.push(c);
+                    }
+                }
+            }
+        }
+    }
+    travelled.sort();
+    let want_records: Vec<CRec> = want.iter().filter(|c| c.rtype != 6).cloned().collect();
+    let full = sizes.iter().filter(|s| **s > 60000).count();
+    lcount(&format!("T:{rname}:messages={}:filled-to-the-limit={}:ref={:?}({})", out.msgs.len(), full, refo.verdict, refo.reason));
+    if verbose {
+        println!("tsig sender case: extra={extra} request={rname}");
+        println!("  message sizes {sizes:?} flags {flags:?}");
+        println!("  errors {:?} tsig failures {:?}", out.errors, out.tsig_failures);
+        println!("  reference {:?}/{} records travelled {} wanted {}", refo.verdict, refo.reason, travelled.len(), want_records.len());
+    }
+    if full == 0 {
+        report(sh, "C10|MACHINERY|part-T-no-message-filled-to-the-limit", &|| format!("harness self-check: sizes {sizes:?}"), &cj);
+    }
+    if !out.errors.is_empty() {
+        report(sh, &format!("C10|sender-tsig|{rname}|service-error"), &|| format!("response stream carries errors {:?}", out.errors), &cj);
+        return;
+    }
+    if out.too_long {
+        report(sh, &format!("C10|sender-tsig|{rname}|response-longer-than-65535"), &|| format!("sizes {sizes:?}"), &cj);
+    }
+    if !out.tsig_failures.is_empty() {
+        report(
+            sh,
+            &format!("C10|sender-tsig|{rname}|response-fails-tsig-verification"),
+            &|| format!("{:?}; message sizes {sizes:?} flags {flags:?}", out.tsig_failures),
+            &cj,
+        );
+    }
+    if refo.verdict != V::Valid || refo.final_zone.as_ref() != Some(&want) || travelled != want_records {
+        report(
+            sh,
+            &format!("C10|sender-tsig|{rname}|emitted-stream-is-not-a-valid-transfer-of-the-zone|{:?}({})", refo.verdict, refo.reason),
+            &|| {
+                format!(
+                    "transfer of a zone that fills a response message to the limit: reference reads {:?}/{}; {} of {} records travelled; message sizes {sizes:?} flags {flags:?}",
+                    refo.verdict,
+                    refo.reason,
+                    travelled.len(),
+                    want_records.len()
+                )
+            },
+            &cj,
+        );
+        return;
+    }
+    // and the real receiver ends up with the sender's zone
+    let mk = move || big_zone(1, extra, 0);
+    let empty = BTreeSet::new();
+    let c = Case {
+        part: "S",
+        label: format!("sender-tsig:{rname}/extra={extra}"),
+        old_kinds: [0, 0, 0],
+        old_serial: 1,
+        old: &empty,
+        honest_new: Some(want.clone()),
+        honest_versions: vec![client_obs.clone(), want],
+        fault: None,
+        msgs: out.msgs.clone(),
+        custom_old: Some((client_obs, &mk)),
+        replay_as: Some(cj()),
+    };
+    judge(sh, &c, verbose);
+}
+
+fn treq_all() -> [TReq; 4] {
+    [TReq::AxfrSigned, TReq::AxfrUnsigned, TReq::IxfrDiffSigned, TReq::IxfrFallbackSigned]
+}
+
+fn run_tsig_part(sh: &Shared, b: &Bounds) {
+    // 0 and 2..=b.tsig_extra_max: every room 0..filler size left in the first message
+    let extras: Vec<usize> = std::iter::once(0).chain(2..=b.tsig_extra_max).collect();
+    let mut cases = vec![];
+    for e in extras {
+        for rq in treq_all() {
+            cases.push((e, rq));
+        }
+    }
+    cases.par_iter().for_each(|(e, rq)| run_tsig_case(sh, *e, *rq, false));
+}
+
+fn replay_tsig(sh: &Shared, case: &Value) {
+    let extra = case["extra"].as_u64().unwrap() as usize;
+    let rq = treq_all().into_iter().find(|r| format!("{r:?}") == case["request"].as_str().unwrap()).unwrap();
+    run_tsig_case(sh, extra, rq, true);
+}
+
+// ====================================================================
 // main
 // ====================================================================
 
-fn replay(sh: &Shared, case: &Value) {
+fn replay(sh: &Shared, case: &Value, b: &Bounds) {
     let kinds = |v: &Value| -> Kinds {
         let a: Vec<u8> = v.as_array().unwrap().iter().map(|x| x.as_u64().unwrap() as u8).collect();
         [a[0], a[1], a[2]]
@@ -2076,6 +2687,8 @@ fn replay(sh: &Shared, case: &Value) {
             run_diff_case(sh, kinds(&case["old"]), &ops, case["mode"].as_u64().unwrap() as u8, true);
         }
         "S" => replay_sender(sh, case),
+        "H" => replay_history(sh, case, b),
+        "T" => replay_tsig(sh, case),
         _ => {
             let old_k = kinds(&case["old"]);
             let old = zone_recs(old_k);
@@ -2090,6 +2703,8 @@ fn replay(sh: &Shared, case: &Value) {
                 honest_versions: vec![],
                 fault: case["fault"].as_str().map(|s| s.to_string()).or(Some("replay".into())),
                 msgs,
+                custom_old: None,
+                replay_as: None,
             };
             judge(sh, &c, true);
         }
@@ -2100,15 +2715,15 @@ fn main() {
     let ctx = Ctx::new("C10", "model_checking");
     let sh = Shared { ctx: ctx.clone(), stats: Stats::new(), seen: Default::default(), sample_keys: Default::default(), samples: Default::default() };
     let b = if ctx.quick() {
-        Bounds { max_dist: 2, all_splits_upto: 8, both_qmodes: false, mid_first: 1, mid_second: 1, fault_dist: 1, fault_cuts: 1, diff_len: 2, sender_dist: 1 }
+        Bounds { max_dist: 2, all_splits_upto: 8, both_qmodes: false, mid_first: 1, mid_second: 1, fault_dist: 1, fault_cuts: 1, diff_len: 2, sender_dist: 1, hist_dist: 1, hist_aborts: 2, hist_all_mids: false, tsig_extra_max: 230 }
     } else {
-        Bounds { max_dist: 3, all_splits_upto: 10, both_qmodes: true, mid_first: 1, mid_second: 2, fault_dist: 2, fault_cuts: 2, diff_len: 3, sender_dist: 2 }
+        Bounds { max_dist: 3, all_splits_upto: 10, both_qmodes: true, mid_first: 1, mid_second: 2, fault_dist: 2, fault_cuts: 2, diff_len: 3, sender_dist: 2, hist_dist: 2, hist_aborts: 2, hist_all_mids: true, tsig_extra_max: 230 }
     };
     let mut npairs = 0;
     if let Some(p) = &ctx.replay {
         let text = std::fs::read_to_string(p).expect("replay file");
         let v: Value = serde_json::from_str(&text).expect("replay json");
-        replay(&sh, &v["case"]);
+        replay(&sh, &v["case"], &b);
     } else {
         let mut pairs = vec![];
         for oi in 0..64 {
@@ -2126,6 +2741,10 @@ fn main() {
         eprintln!("part D done at {:.1}s ({} evaluations)", t0.elapsed().as_secs_f64(), sh.stats.evals());
         run_sender_part(&sh, &b);
         eprintln!("part S done at {:.1}s ({} evaluations)", t0.elapsed().as_secs_f64(), sh.stats.evals());
+        run_history_part(&sh, &b);
+        eprintln!("part H done at {:.1}s ({} evaluations)", t0.elapsed().as_secs_f64(), sh.stats.evals());
+        run_tsig_part(&sh, &b);
+        eprintln!("part T done at {:.1}s ({} evaluations)", t0.elapsed().as_secs_f64(), sh.stats.evals());
     }
     // merge the per-thread statistics
     let mut locals: Vec<Local> = rayon::broadcast(|_| LOCAL.with(|l| std::mem::take(&mut *l.borrow_mut())));
@@ -2148,12 +2767,14 @@ fn main() {
             "traces_validated_against_impl": total.runs,
             "evaluations": sh.stats.evals(),
             "distinct_nontrivial": sh.stats.distinct_count(),
-            "rule": "distinct (old zone, exact response octets) receiver cases with >=2 messages, a fault, or a changed zone; plus distinct (old zone, non-empty edit sequence, commit mode) diff cases; plus distinct (old,mid,new,request) sender cases",
+            "rule": "distinct (old zone, exact response octets) receiver cases with >=2 messages, a fault, or a changed zone; plus distinct (old zone, non-empty edit sequence, commit mode) diff cases; plus distinct (old,mid,new,request) sender cases; plus distinct (old, first stream, cut, abort kind, second target, second form) histories; plus distinct (RNAME extension, request kind) TSIG sender cases",
             "exhaustive": true,
             "bounds": {
                 "zones": 64, "ordered_pairs": npairs, "pair_distance": b.max_dist, "all_splits_up_to_rrs": b.all_splits_upto, "beyond": "all splits with <=2 cuts + one RR per message",
                 "two_step_mid": format!("dist(old,mid)<={} and dist(mid,new)<={}", b.mid_first, b.mid_second),
                 "fault_pair_distance": b.fault_dist, "fault_split_cuts": b.fault_cuts, "diff_edit_len": b.diff_len,
+                "history": format!("first update: every stream of pairs 1..={} RRsets apart{}, one RR per message, cut after every RR, {} abort kinds; second update: 3 forms to every zone <=1 RRset from the version reached", b.hist_dist, if b.hist_all_mids { " (all 2-step mids)" } else { " (2-step mids different from both ends)" }, b.hist_aborts),
+                "tsig_sender": format!("SOA + {} TXT records of {} octets, RNAME extension 0 and 2..={} octets, 4 request kinds", FILLERS, FILL_TXT, b.tsig_extra_max),
             },
             "histogram": total.counters,
             "samples": samples,
